@@ -15,9 +15,10 @@ impl TryFrom<&[u8]> for RegisterRequest {
     type Error = TryFromSliceError;
 
     fn try_from(data: &[u8]) -> Result<Self, Self::Error> {
+        let (challenge, application) = data.split_at(data.len().min(32));
         Ok(Self {
-            challenge: data[..32].try_into()?,
-            application: data[32..].try_into()?,
+            challenge: challenge.try_into()?,
+            application: application.try_into()?,
         })
     }
 }
